@@ -5,7 +5,7 @@ Line-protocol driver for C22. One server configuration per case, then requests.
 
   cfg pfx=</a/b|-> auth=0|1 proof=0|1 pkce=0|1 upload=0|1 introspect=0|1 sticky=0|1
       describe=0|1 landing=0|1 notfound=0|1 custom=<VERB:/pat,...|->       -> ok
-  req <VERB> <path> inner=<accept:NAME|anon|failure|wrapped|value|perm|unavail|rpcother|other|nilnil>
+  req <VERB> <path> inner=<accept:NAME|anon|failure|wrapped|value|perm|unavail|rpcother|other|nilnil|ctx+<refusal>>
       proof=<absent|valid|bad> ct=<arrow|other> body=<empty|garbage|valid|mismatch|count:N|tok-unknown|tok-jws|tok-down>
       sess=<absent|garbage|fresh>                                           -> gate=<denied|open|na> ev=<...|->
 -/
@@ -85,7 +85,7 @@ def parseCfg (ws : List String) : Option Cfg := do
     notFoundPage := ← b "notfound"
     custom := ← (g "custom").bind parseCustoms }
 
-def parseInner (s : String) : Option Inner :=
+def parseInnerPlain (s : String) : Option Inner :=
   if s.startsWith "accept:" then some (.accept (s.drop 7).toString)
   else if s = "anon" then some .acceptAnon
   else if s = "failure" then some (.reject .failure)
@@ -97,6 +97,16 @@ def parseInner (s : String) : Option Inner :=
   else if s = "other" then some (.reject .other)
   else if s = "nilnil" then some .nilNil
   else none
+
+/-- `ctx+<kind>`: the authenticator returns a non-nil context TOGETHER with that error; only the error
+counts (`authenticate` tests `err != nil`), so it is the same refusal. -/
+def parseInner (s : String) : Option Inner :=
+  if s.startsWith "ctx+" then
+    (if (s.drop 4).toString = "nilnil" then none else
+      match parseInnerPlain (s.drop 4).toString with
+      | some (.reject k) => some (.reject k)
+      | _ => none)
+  else parseInnerPlain s
 
 def parseBody (s : String) : Option Body :=
   if s = "empty" then some .empty
